@@ -1,5 +1,6 @@
 import CssVerif.Model.SheetBlocks
 import CssVerif.Lemmas.SheetList
+import CssVerif.Lemmas.SheetRaw
 /-!
 # C09 — lemmas about declaration blocks and properties as objects (`Model/SheetBlocks.lean`)
 -/
@@ -413,11 +414,16 @@ theorem dstep_links (ds : DSt) (op : DOp) (hl : DLinks ds) (hs : DOpOK op) : DLi
       · exact hl
       · exact removePropAt_links _ _ _ hl
   | sharePropObj path src i => exact absurd hs (by simp [DOpOK])
+  | rawDelete path i => exact absurd hs (by simp [DOpOK])
+  | rawInsert s i => exact absurd hs (by simp [DOpOK])
+  | reinsert path index => exact absurd hs (by simp [DOpOK])
 
 instance (op : DOp) : Decidable (DOpOK op) := by cases op <;> unfold DOpOK <;> exact inferInstance
 
 /-- an operation on declaration blocks / properties leaves the rule tree alone -/
-theorem dstep_st (ds : DSt) (op : DOp) (h : ∀ o, op ≠ .sheet o) : (dstep ds op).1.st = ds.st := by
+theorem dstep_st (ds : DSt) (op : DOp) (h : ∀ o, op ≠ .sheet o)
+    (hraw : ¬ ((∃ p i, op = .rawDelete p i) ∨ (∃ s i, op = .rawInsert s i) ∨ (∃ p i, op = .reinsert p i))) :
+    (dstep ds op).1.st = ds.st := by
   cases op with
   | sheet o => exact absurd rfl (h o)
   | newStyle path items form => simp only [dstep]; split; rfl; split <;> rfl
@@ -431,6 +437,16 @@ theorem dstep_st (ds : DSt) (op : DOp) (h : ∀ o, op ≠ .sheet o) : (dstep ds 
     simp only [dstep]; split
     · split; rfl; split; rfl; split <;> rfl
     · rfl
+  | rawDelete path i => exact absurd rfl (by intro e; exact hraw (Or.inl ⟨path, i, e⟩))
+  | rawInsert s i => exact absurd rfl (by intro e; exact hraw (Or.inr (Or.inl ⟨s, i, e⟩)))
+  | reinsert path index => exact absurd rfl (by intro e; exact hraw (Or.inr (Or.inr ⟨path, index, e⟩)))
+
+/-- the edits around the DOM methods leave blocks and properties alone -/
+theorem dstep_raw_links (ds : DSt) (op : DOp) (hl : DLinks ds)
+    (h : (∃ p i, op = .rawDelete p i) ∨ (∃ s i, op = .rawInsert s i) ∨ (∃ p i, op = .reinsert p i)) :
+    DLinks (dstep ds op).1 := by
+  rcases h with ⟨p, i, rfl⟩ | ⟨s, i, rfl⟩ | ⟨p, i, rfl⟩ <;>
+    exact ⟨hl.blockUp, hl.blockOnly, hl.propUp, hl.propOnly, hl.freshB, hl.freshP⟩
 
 theorem dstep_sheet_st (ds : DSt) (op : Op) : (dstep ds (.sheet op)).1.st = (step ds.st op).1 := by
   cases op with
